@@ -160,6 +160,24 @@ def gen_std_modules():
                 spawning.append(f"{mod}::{name}")
             if EFFECT.search(b) and not chk and (mod, mod) not in [(g, g) for g, _ in gated]:
                 ungated.append(f"{mod}::{name}")
+    # natives of gated modules that re-check the capability on every call:
+    # body starts with `require_<bit>(vm, "..")?;` and that helper tests allow_<bit>
+    percall = []
+    for mod, bit in gated:
+        text, regs = module_natives(mod)
+        try:
+            hb = fn_body(text, "require_" + bit, mod)
+        except ExtractError:
+            continue
+        if not re.search(r"if\s*!\s*vm\.capabilities\(\)\.allow_" + bit + r"\s*\{\s*return\s+Err\(\s*vm\.runtime_error\(\s*RuntimeErrorKind::CapabilityDenied", hb):
+            continue
+        for name, func in regs:
+            try:
+                b = fn_body(text, func.split("::")[-1], mod)
+            except ExtractError:
+                continue
+            if re.match(r"\s*require_" + bit + r"\(\s*vm\s*,\s*\"[a-z_.0-9]+\"\s*\)\?;", b):
+                percall.append(f"{mod}::{name}")
     # capability names -> bits (args/parse.rs)
     parse = strip_comments(rd("runtime/src/vm/args/parse.rs"))
     ac = fn_body(parse, "apply_caps_to_capabilities", "args/parse.rs")
@@ -206,7 +224,14 @@ def gen_std_modules():
     if not m_aasm or not m_avbc:
         raise ExtractError("cli run.rs: load_required_modules call not found in run_aasm_file/run_avbc_file")
     aasm_none = m_aasm.group(1) == "None"
-    avbc_embedded = m_avbc.group(1).startswith("manifest") and "deserialize_with_manifest" in avbc and "for_source_file" not in avbc
+    aasm_project = (not aasm_none) and m_aasm.group(1).startswith("manifest") and \
+        bool(re.search(r"let\s+manifest\s*=\s*Manifest::for_source_file\(path\)\s*;", aasm))
+    if not aasm_none and not aasm_project:
+        raise ExtractError("cli run.rs::run_aasm_file: manifest argument of unexpected shape")
+    if not (m_avbc.group(1).startswith("manifest") and "deserialize_with_manifest" in avbc):
+        raise ExtractError("cli run.rs::run_avbc_file: manifest argument of unexpected shape")
+    avbc_fallback = bool(re.search(r"None\s*=>\s*Manifest::for_source_file\(path\)", avbc))
+    avbc_embedded = not avbc_fallback and "for_source_file" not in avbc
     ini = strip_comments(rd("driver/src/modules/loader/init.rs"))
     source_project = bool(re.search(r"manifest\s*:\s*Manifest::for_source_file\(entry_file\)", fn_body(ini, "new", "loader/init.rs")))
     # fallthrough in load_required_modules: a std module that fails to register is looked up as a user/native module
@@ -239,6 +264,8 @@ def gen_std_modules():
     pair = lambda x: "(%s, %s)" % (q(x.split("::")[0]), q(x.split("::")[1]))
     out.append(f"Definition exec_guarded : list (string * string) := {coq_list(pair(x) for x in guarded)}.\n")
     out.append(f"Definition spawning_natives : list (string * string) := {coq_list(pair(x) for x in spawning)}.\n")
+    out.append("(* natives of gated modules that re-check the capability at the top of every call *)\n")
+    out.append(f"Definition percall_guarded : list (string * string) := {coq_list(pair(x) for x in percall)}.\n")
     out.append("(* natives outside the gated modules whose body opens files / sockets / processes without a capability test *)\n")
     out.append(f"Definition ungated_effectful : list (string * string) := {coq_list(pair(x) for x in ungated)}.\n")
     out.append(f"Definition cap_bits : list (string * string) := {coq_list('(%s, %s)' % (q(a), q(c)) for a, c in capbits)}.\n")
@@ -250,6 +277,8 @@ def gen_std_modules():
     out.append(f"Definition source_route_uses_project_manifest : bool := {b(source_project)}.\n")
     out.append(f"Definition avbc_route_uses_embedded_manifest_only : bool := {b(avbc_embedded)}.\n")
     out.append(f"Definition aasm_route_passes_no_manifest : bool := {b(aasm_none)}.\n")
+    out.append(f"Definition aasm_route_uses_project_manifest : bool := {b(aasm_project)}.\n")
+    out.append(f"Definition avbc_route_falls_back_to_project_manifest : bool := {b(avbc_fallback)}.\n")
     out.append(f"Definition denied_std_module_falls_through_to_file_lookup : bool := {b(std_fallthrough)}.\n")
     out.append(f"Definition fnv_offset_file : N := {fnv[0]}%N.\nDefinition fnv_prime_file : N := {fnv[1]}%N.\n"
                f"Definition fnv_offset_bytes : N := {fnv[2]}%N.\nDefinition fnv_prime_bytes : N := {fnv[3]}%N.\n")
